@@ -133,6 +133,10 @@ def tv_eval(test: ast.AST, assume: Dict[str, Optional[bool]]) -> Optional[bool]:
     d = dotted(test)
     if d is not None and d in assume:
         return assume[d]
+    if isinstance(test, ast.Call):
+        k = src(test)
+        if k in assume:
+            return assume[k]
     if isinstance(test, ast.Constant):
         return bool(test.value)
     if isinstance(test, ast.UnaryOp) and isinstance(test.op, ast.Not):
